@@ -1149,8 +1149,11 @@ impl Connection {
                 ids.into_iter().rev().for_each(|frame| {
                     self.spaces[SpaceId::Data].pending.new_cids.push(frame);
                 });
-                // Update Timer::PushNewCid
-                if self.timers.get(Timer::PushNewCid).is_none_or(|x| x <= now) {
+                // Update Timer::PushNewCid. A closed (possibly already drained) connection that is
+                // handed identifiers it requested earlier has no use for a rotation timer.
+                if !self.state.is_closed()
+                    && self.timers.get(Timer::PushNewCid).is_none_or(|x| x <= now)
+                {
                     self.reset_cid_retirement();
                 }
             }
